@@ -85,15 +85,15 @@ Example ex_umask :
 Proof. do 2 eexists. repeat split; vm_compute; reflexivity. Qed.
 
 Example ex_norm :
-  exists st, walk (k_ino ex0) [] (comps p_dots) = WOk st /\
+  exists st, walk false (k_ino ex0) [] (comps p_dots) = WOk st /\
              norm [] (comps p_dots) = [[100]; [104]]%N /\ top st = 7.
 Proof. eexists. repeat split; vm_compute; reflexivity. Qed.
 
 (* the hypothesis of [path_normalisation] is needed: `f/..` does not resolve
    (f is a regular file) although its normal form (the empty path) does *)
 Example ex_norm_needs_hyp :
-  walk (k_ino ex0) [] [[102]; [46; 46]]%N = WErr ENOTDIR /\
-  walk (k_ino ex0) [] (norm [] [[102]; [46; 46]]%N) = WOk [].
+  walk false (k_ino ex0) [] [[102]; [46; 46]]%N = WErr ENOTDIR /\
+  walk false (k_ino ex0) [] (norm [] [[102]; [46; 46]]%N) = WOk [].
 Proof. split; vm_compute; reflexivity. Qed.
 
 Example ex_oracle_sound :
